@@ -157,8 +157,11 @@ func GetRequestInfo(request any) string {
 		create := &modelrequest.CreateRequest{}
 		buffer, _ := json.Marshal(request)
 		_ = json.Unmarshal(buffer, create)
+		create.MilvusConnectParam.Username = ""
 		create.MilvusConnectParam.Password = ""
 		create.MilvusConnectParam.Token = ""
+		create.KafkaConnectParam.SASL.Username = ""
+		create.KafkaConnectParam.SASL.Password = ""
 		r = create
 	}
 	requestBytes, _ := json.Marshal(r)
